@@ -102,7 +102,7 @@ Definition class_ok (cls : N) (cf : ts_conf) (trust chain : list cert) (now : Z)
   end.
 
 Inductive case :=
-| Hs (i : ts_in) (trust chain : list cert) (now : Z)
+| Hs (i : ts_in) (tc : trust_cfg) (chain : list cert) (now : Z)
      (scen : N) (split : bool) (childk : N) (cdata : bool)
      (obs_sni : bytes) (obs_exc : N) (obs_hello : bool) (obs_servername : option bytes)
      (obs_cmds obs_child : list N) (obs_app : bytes) (obs_errlogs obs_warnlogs : N) (obs_class : N)
@@ -112,8 +112,9 @@ Inductive case :=
 
 Definition check_case (c : case) : bool :=
   match c with
-  | Hs i trust chain now scen split childk cdata o_sni' o_exc o_hello o_name o_cmds o_child o_app o_el o_wl o_cls =>
+  | Hs i tc chain now scen split childk cdata o_sni' o_exc o_hello o_name o_cmds o_child o_app o_el o_wl o_cls =>
       let o := tls_start_server i in
+      let trust := loaded_trust tc in     (* create_proxy_server_context: the stores that are loaded *)
       let accept := match o_res o with inr cf => peer_acceptable cf trust chain now | inl _ => false end in
       let conn := match o_res o with inr _ => Some Fresh | inl _ => None end in
       let tr := run_case accept conn scen split childk cdata in
